@@ -5,6 +5,7 @@
 """
 
 import numpy as np
+from copy import deepcopy
 from textwrap import indent
 
 from ..constants import c
@@ -111,9 +112,16 @@ class StateVector(np.ndarray):
 
         new_compl = {}
         for k, v in self._data.items():
-            new_compl[k] = v.copy() if hasattr(v, "copy") else v
+            if k != "maneuvers" and isinstance(v, (list, tuple, dict, set)):
+                # free metadata containers are copied in depth, so that no
+                # nested mutable object is shared with the original
+                # (maneuver objects stay shared: KeplerianImpulsiveMan caches
+                # its computed dv for the caller to read)
+                new_compl[k] = deepcopy(v)
+            else:
+                new_compl[k] = v.copy() if hasattr(v, "copy") else v
 
-        new_obj = self.__class__(self.base, **new_compl)
+        new_obj = self.__class__(np.array(self), **new_compl)
 
         if same is not None:
             if hasattr(same, "frame") and hasattr(same, "form"):
@@ -312,7 +320,7 @@ StateVector =
     def form(self, new_form):
         if isinstance(new_form, str):
             new_form = get_form(new_form)
-        self.base.setfield(self._data["form"](self, new_form), dtype=float)
+        self.view(np.ndarray)[:] = self._data["form"](self, new_form)
         self._data["form"] = new_form
 
     @property
@@ -342,7 +350,7 @@ StateVector =
             self.form = "cartesian"
             try:
                 new_coord = self.frame.transform(self, new_frame)
-                self.base.setfield(new_coord, dtype=float)
+                self.view(np.ndarray)[:] = new_coord
                 self._data["frame"] = new_frame
             finally:
                 self.form = old_form
@@ -367,9 +375,9 @@ StateVector =
         """
         from .orbit import Orbit
 
-        new_dict = self._data.copy()
+        new_dict = StateVector.copy(self)._data
         new_dict["propagator"] = propagator
-        return Orbit(self.base, **new_dict)
+        return Orbit(np.array(self), **new_dict)
 
     @property
     def infos(self):
